@@ -15,6 +15,16 @@ Definition tol : Q := (1 # 1000000000)%Q.
 '''
 
 
+# how an (integer-valued) element size is handed to DomainDefinition
+KINDS = {'float': float, 'int': int, 'np.float64': np.float64, 'np.int64': np.int64, 'np.int32': np.int32}
+INT_KINDS = ('int', 'np.int64', 'np.int32')
+KIND_SETS = (['int'] * 3, ['np.int64'] * 3, ['int', 'np.int32', 'np.int64'], ['np.int32'] * 3, ['int', 'float', 'int'], ['np.float64', 'int', 'np.int64'])
+
+
+def mk_sizes(hs, kinds):
+    return [KINDS[k](int(h)) if k in INT_KINDS else KINDS[k](h) for h, k in zip(hs, kinds)]
+
+
 def grids(ctx):
     mx, my, mz = (5, 5, 3) if ctx.quick() else (8, 8, 5)
     return [(a, b, c) for a in range(1, mx + 1) for b in range(1, my + 1) for c in range(0, mz + 1)]
@@ -23,7 +33,9 @@ def grids(ctx):
 def run(ctx):
     import pymoto as pym
     ctx.rule = ('exhaustive enumeration of grids nelx,nely<=5 (8), nelz<=3 (5), ndof<=3; one case per (grid, aspect); '
-                'shape functions at dyadic (exact) and random rational (1e-9) points; a case is non-trivial when the grid has '
+                'shape functions at dyadic (exact) and random rational (1e-9) points; element sizes handed over as floats and, '
+                'integer-valued, as Python ints / numpy ints / mixed kinds (node positions, shape functions and derivatives; '
+                'evaluation points as float and as integer arrays); a case is non-trivial when the grid has '
                 '>= 2 elements or the aspect is a shape-function evaluation; distinct by (grid, aspect, parameters)')
     ctx.assumptions += ['1-D domains (nely = 0) are outside the property and not generated',
                         'shape-function theorems are over the reals; floats are tied by exact (dyadic) / 1e-9 comparison']
@@ -90,31 +102,56 @@ def run(ctx):
         pos = d2.get_node_position().T
         add(('position', a, b, c, tuple(hs)),
             f'Qll_eqb (map (node_position {g} {ql(hs[:d2.dim])}%Q) (zrange (nnodes {g}))) {ql([[Fraction(float(v)) for v in r] for r in pos])}%Q', nt)
+        # node positions with integer-valued element sizes handed over as Python ints / numpy ints / mixed with floats
+        hi = [rng.randint(1, 5) for _ in range(3)]
+        kinds = KIND_SETS[(a + 2 * b + 3 * c) % len(KIND_SETS)]
+        d3 = pym.DomainDefinition(a, b, c, *mk_sizes(hi, kinds))
+        ctx.count(f'position element_size dtype {d3.element_size.dtype}')
+        pos = d3.get_node_position().T
+        add(('position_int', a, b, c, tuple(hi), tuple(kinds)),
+            f'Qll_eqb (map (node_position {g} {ql([Fraction(h) for h in hi[:d3.dim]])}%Q) (zrange (nnodes {g}))) {ql([[Fraction(float(v)) for v in r] for r in pos])}%Q', nt)
     # shape functions
-    nshape = 150 if ctx.quick() else 1500
+    nshape = 180 if ctx.quick() else 1800
     for t in range(nshape):
-        dim = rng.choice((2, 3))
-        exact = t % 2 == 0
-        if exact:
+        dim = rng.choice((2, 3)) if t >= 36 else (2, 3)[(t // 3) % 2]
+        cls = t % 3          # 0: dyadic sizes (exact), 1: rational sizes (1e-9), 2: integer-valued sizes in every way of handing them over (exact)
+        exact = cls != 1
+        kinds, pos_int = None, False
+        if cls == 0:
             hs = [Fraction(rng.choice((1, 2, 4, 8)), rng.choice((1, 2, 4))) for _ in range(3)]
             pos = [Fraction(rng.choice((-8, 8, rng.randint(-8, 8), rng.randint(-8, 8))), 16) * h for h in hs]  # incl. faces/corners
-        else:
+        elif cls == 1:
             hs = [Fraction(rng.randint(1, 40), rng.randint(1, 13)) for _ in range(3)]
             pos = [Fraction(rng.randint(-50, 50), 100) * h for h in hs]
-        ctx.count('shape_exact' if exact else 'shape_tol')
-        d = pym.DomainDefinition(2, 2, 0 if dim == 2 else 2, *[float(h) for h in hs])
+        else:
+            # the first 36 draws run through every kind set in 2-D and 3-D on every seed (all-integer sets make element_size an integer array)
+            kinds = KIND_SETS[(t // 6) % len(KIND_SETS)] if t < 36 else (KIND_SETS[rng.randrange(len(KIND_SETS))] if rng.random() < 0.6 else [rng.choice(tuple(KINDS)) for _ in range(3)])
+            hs = [Fraction(rng.choice((1, 2, 3, 4, 6, 8))) for _ in range(3)]
+            exact = all(h in (1, 2, 4, 8) for h in hs)       # 1/3 is not a float: 1e-9 comparison then
+            pos_int = rng.random() < 0.3
+            if pos_int:      # evaluation point handed over as an integer array (e.g. the centroid np.array([0, 0, 0]))
+                pos = [Fraction(rng.randint(-(int(h) // 2), int(h) // 2)) for h in hs]
+            else:
+                pos = [Fraction(rng.choice((-8, 8, rng.randint(-8, 8), rng.randint(-8, 8))), 16) * h for h in hs]
+        ctx.count('shape_exact' if cls == 0 else 'shape_tol' if cls == 1 else 'shape_int_sizes')
+        if kinds is None:
+            d = pym.DomainDefinition(2, 2, 0 if dim == 2 else 2, *[float(h) for h in hs])
+        else:
+            d = pym.DomainDefinition(2, 2, 0 if dim == 2 else 2, *mk_sizes(hs, kinds))
+            ctx.count(f'shape element_size dtype {d.element_size.dtype}' + (', integer evaluation point' if pos_int else ''))
         hq = [Fraction(float(h)) for h in hs]
         pq = [Fraction(float(p)) for p in pos]
-        N = d.eval_shape_fun(np.array([float(p) for p in pos[:dim]]))
-        dN = d.eval_shape_fun_der(np.array([float(p) for p in pos[:dim]]))
+        parr = np.array([int(p) for p in pos[:dim]]) if pos_int else np.array([float(p) for p in pos[:dim]])
+        N = d.eval_shape_fun(parr)
+        dN = d.eval_shape_fun_der(parr)
         if not (np.all(np.isfinite(N)) and np.all(np.isfinite(dN))):
             ctx.violation('impl-violates', 'DomainDefinition', 'shape functions and derivatives are finite inside the closed element',
-                          f'dim{dim}', dict(sizes=[str(h) for h in hs], pos=[str(p) for p in pos[:dim]]), expected='finite values',
+                          f'dim{dim}', dict(sizes=[str(h) for h in hs], pos=[str(p) for p in pos[:dim]], size_kinds=kinds), expected='finite values',
                           got=dict(N=str(N.tolist()), dN=str(dN.tolist())))
             continue
         cmpf = 'Ql_eqb' if exact else 'Ql_close tol'
         cmpf2 = 'Qll_eqb' if exact else 'Qll_close tol'
-        add(('shape', dim, exact, tuple(hq), tuple(pq)),
+        add(('shape', dim, cls, tuple(hq), tuple(pq), tuple(kinds) if kinds else None, pos_int),
             f'({cmpf} (shape_fun {dim}%nat {ql(hq)}%Q {ql(pq)}%Q) {ql([Fraction(float(v)) for v in N])}%Q && '
             f'{cmpf2} (shape_der {dim}%nat {ql(hq)}%Q {ql(pq)}%Q) {ql([[Fraction(float(v)) for v in r] for r in dN])}%Q)')
     ctx.exhaustive = True
@@ -136,8 +173,12 @@ def run(ctx):
 def oracle(ctx, pym, thorough=False):
     rng = np.random.default_rng(ctx.seed)
     for (a, b, c) in grids(ctx):
-        for sizes in ((1.0, 1.0, 1.0), (0.5, 2.0, 0.25)):
+        # float sizes on every grid; integer-valued sizes handed over as Python ints / numpy ints on the grids of the first layers
+        int_sizes = ((2, 1, 3), (np.int64(1), np.int64(2), np.int64(2)), (3, np.int32(2), 1.0)) if (a <= 2 and b <= 2) else ((2, 1, 3),) if a == b else ()
+        for sizes in ((1.0, 1.0, 1.0), (0.5, 2.0, 0.25)) + int_sizes:
             d = pym.DomainDefinition(a, b, c, *sizes)
+            kinds = [type(v).__name__ for v in sizes]
+            sizes = tuple(float(v) if isinstance(v, (float, np.floating)) else int(v) for v in sizes)   # plain numbers for the replay
             ctx.search_evaluations += 1
             dim = 2 if c == 0 else 3
             nz = max(c, 1)
@@ -146,7 +187,7 @@ def oracle(ctx, pym, thorough=False):
 
             def bad(pred, expected, got, **case):
                 ctx.violation('impl-violates', 'DomainDefinition', pred, f'dim{dim}',
-                              dict(nelx=a, nely=b, nelz=c, sizes=sizes, **case), expected=expected, got=got)
+                              dict(nelx=a, nely=b, nelz=c, sizes=sizes, size_kinds=kinds, **case), expected=expected, got=got)
             if sorted(el.tolist()) != list(range(d.nel)) or d.nel != a * b * nz:
                 bad('element numbers are a bijection onto [0, nel)', list(range(d.nel)), sorted(el.tolist()))
             NI, NJ, NK = np.meshgrid(np.arange(a + 1), np.arange(b + 1), np.arange(c + 1), indexing='ij')
